@@ -203,6 +203,13 @@ def reasonableRF {W : Type} (A : WArith W) (m : Msa) (wgt : List W) : Option Byt
 
 /-! ## esl_msa_AppendGC -/
 
+/-- `esl_msa_AddComment(msa, p, n)`: the line is stored at the end of `comment[]` (grown by doubling from 16) -/
+def addComment (m : Msa) (v : Bytes) : Msa := { m with comment := m.comment ++ [v] }
+
+/-- `esl_msa_AddGF(msa, tag, taglen, value, vlen)`: a new (tag, value) line at the end of `gf_tag[] / gf[]`; a repeated tag
+    is a new line, not a concatenation -/
+def addGF (m : Msa) (tag v : Bytes) : Msa := { m with gf := m.gf ++ [(tag, v)] }
+
 /-- `esl_msa_AppendGC(msa, tag, value)`: a new tag gets a new line at the end; an existing tag (keyhash lookup) has the
     value appended to its line (`esl_strcat`) -/
 def appendGC (tbl : List (Bytes × Bytes)) (tag v : Bytes) : List (Bytes × Bytes) :=
